@@ -346,6 +346,39 @@ pub fn enumerate(thorough: bool, part: usize, parts: usize, sink: &mut EnumSink)
             }
         }
     }
+    // (iii') long digit runs: `\\u` + 8..12 hex digits over {0, f} (a four-digit escape directly followed by text
+    // that reads as more hex digits), with the same prefixes / terminators / suffixes
+    {
+        let prefixes: [&[u32]; 3] = [&[], &[0x5C], &[0x5C, 0x75, 0x30, 0x30, 0x34, 0x31]];
+        let terms: [&[u32]; 4] = [&[], &[0x7D], &[0x67], &[0x5C, 0x75, 0x30, 0x30, 0x34, 0x31]];
+        for k in 8..=12usize {
+            for idx in 0..(1usize << k) {
+                if idx % parts != part {
+                    continue;
+                }
+                let hexs: Vec<u32> = (0..k).map(|b| if idx >> b & 1 == 1 { 0x66 } else { 0x30 }).collect();
+                for pre in prefixes {
+                    for term in terms {
+                        for braces in [false, true] {
+                            let mut w: Vec<u32> = pre.to_vec();
+                            w.extend([0x5C, 0x75]);
+                            if braces {
+                                w.push(0x7B);
+                            }
+                            w.extend(&hexs);
+                            w.extend(term);
+                            let mut o = Outcome::default();
+                            check_parse(&w, &mut o);
+                            sink.case(&o, true, || format!("text {}", show_text(&w)));
+                        }
+                    }
+                }
+            }
+            if sink.failed() {
+                return;
+            }
+        }
+    }
     // (iv) print direction: all sequences over 9 code points
     let cps: [u32; 9] = [0x5C, 0x75, 0x7B, 0x7D, 0x34, 0x31, 0x22, 0x7F, 0x2FFFF];
     let plen = if thorough { 7 } else { 6 };
@@ -369,9 +402,9 @@ pub fn enumerate(thorough: bool, part: usize, parts: usize, sink: &mut EnumSink)
         check_print(&[x], &mut o);
         check_print(&[0x5C, 0x75, x], &mut o);
         check_char_printers(x, &mut o);
-        // x in every syntactic role of an escape (a reader that recognises `\`, `u`, `{`, `}` or a hex
+        // x (ASCII included: `+`, `U`, `x`, ... are not part of the grammar) in every syntactic role of an escape (a reader that recognises `\`, `u`, `{`, `}` or a hex
         // digit by anything less than the whole code point takes x for one of them)
-        if x > 0x7F && char::from_u32(x).is_some() {
+        if char::from_u32(x).is_some() {
             for tmpl in ROLE_TEMPLATES {
                 for k in 0..tmpl.len() {
                     let mut w: Vec<u32> = tmpl.to_vec();
@@ -388,7 +421,7 @@ pub fn enumerate(thorough: bool, part: usize, parts: usize, sink: &mut EnumSink)
     }
     if part == 0 {
         sink.stats.exhaustive_spaces.push(format!(
-            "all texts of length <= {} over the 10 symbols \\ u {{ }} 0 2 3 f A g; all structured texts prefix.\\u[{{]hex^k.terminator.suffix for k <= 7; all strings of length <= {} over 9 code points (\\ u {{ }} 4 1 \" 0x7f 0x2ffff) printed and read back; every single code point printed (Display, char_to_smt, smt_char_as_string) and, above 0x7F, substituted for each character of `\\u0041` and `\\u{{41}}` in turn",
+            "all texts of length <= {} over the 10 symbols \\ u {{ }} 0 2 3 f A g; all structured texts prefix.\\u[{{]hex^k.terminator.suffix for k <= 7; all strings of length <= {} over 9 code points (\\ u {{ }} 4 1 \" 0x7f 0x2ffff) printed and read back; every single code point printed (Display, char_to_smt, smt_char_as_string) and substituted for each character of `\\u0041` and `\\u{{41}}` in turn",
             max_len, plen
         ));
         sink.stats.samples.push("[enum] text `\\u{2f}` ; text `\\u{\\u0041` ; string <5c 75 7b 34 31 7d>".to_string());
